@@ -184,6 +184,9 @@ def run(chk, fb, tier):
                     if ("field", adt, field) in at or any(field in direct_fields(fb.mir[g], adt) for g in getters):
                         bad.append("%s:%s %s" % (b["file"], t["ln"], nm))
         chk.ob(rc, "%s.%s" % (adt.split("::")[-1], field), not bad, where=fb.adts[adt]["file"], detail="shrinking/reordering operations on the list: %s" % (bad or "none"))
+    from props import C12
+
+    C12.rule_table_choice(chk, fb, "C11.c")
     chk.assume("Vec/ThinVec push appends at the end and never moves existing elements")
     chk.note("not decided: equivalence of lazily and eagerly loaded content (value-level)")
 
